@@ -200,12 +200,12 @@ function readData<TReadFromStore>(
           nestedRefetchQueries,
           networkRequest,
           networkRequestOptions,
-          (ast, root) =>
+          (ast, root, childVariables) =>
             readData(
               environment,
               ast,
               root,
-              variables,
+              childVariables ?? variables,
               nestedRefetchQueries,
               networkRequest,
               networkRequestOptions,
@@ -645,6 +645,8 @@ export function readLinkedFieldData(
   readData: <TReadFromStore>(
     ast: ReaderAst<TReadFromStore>,
     root: StoreLink,
+    // The variables to read the ast with, if not those of the enclosing reader
+    childVariables?: Variables,
   ) => ReadDataResult<object>,
 ): ReadDataResult<unknown> {
   const storeRecordName = getParentRecordKey(field, variables);
@@ -652,7 +654,13 @@ export function readLinkedFieldData(
 
   if (field.condition != null) {
     const condition = field.condition();
-    const data = readData(condition.readerAst, root);
+    // The condition (e.g. a client pointer) is read with the arguments it is
+    // selected with, not with the variables of the enclosing reader.
+    const conditionVariables = generateChildVariableMap(
+      variables,
+      field.arguments,
+    );
+    const data = readData(condition.readerAst, root, conditionVariables);
     if (data.kind === 'MissingData') {
       return {
         kind: 'MissingData',
@@ -678,13 +686,7 @@ export function readLinkedFieldData(
       root,
       fieldName: condition.fieldName,
       readerArtifactKind: condition.kind,
-      variables: generateChildVariableMap(
-        variables,
-        // TODO this is wrong
-        // should use field.arguments
-        // but it doesn't exist
-        [],
-      ),
+      variables: conditionVariables,
       networkRequest,
     } satisfies FragmentReference<any, any>;
 
